@@ -595,6 +595,9 @@ func (cv *ColVal) AppendTimes(times []int64) {
 	cv.Val = append(cv.Val, util.Int64Slice2byte(times)...)
 	cv.Len += len(times)
 
+	// the bitmap is rebuilt from its first bit: a column cut out of another one by Split
+	// (BitMapOffset > 0 when the cut is not at a multiple of 8 rows) loses its offset with it
+	cv.BitMapOffset = 0
 	cv.FillBitmap(255)
 	cv.RepairBitmap()
 }
